@@ -478,6 +478,41 @@ def c04_default_verbatim(d: int, flavour: int, role: int) -> bool:
     return ok
 
 
+SCOPED_USES = [("T::Value", "ns::Traits::Value"), ("const T::Config::Options&", "const ns::Traits::Config::Options&"), ("T::A::B::C*", "std::shared_ptr<ns::Traits::A::B::C>"),
+               ("std::vector<T::Config::Options>", "std::vector<ns::Traits::Config::Options>"), ("T::Config::Options@", "ns::Traits::Config::Options*"),
+               ("std::map<T::Key, T::Config::Value>", "std::map<ns::Traits::Key, ns::Traits::Config::Value>")]
+
+
+def c04_scoped_parameter_types(use: int, role: int, level: int) -> bool:
+    """
+    A parameter type scoped one to three levels below a template parameter (`T::Value`, `T::Config::Options`, `T::A::B::C`),
+    bare or inside template arguments, with a class-level, member-level or function-level parameter T = ns::Traits: the
+    lambda declares it with every scope component kept (`ns::Traits::Config::Options`).
+    pre: 0 <= use < len(SCOPED_USES) and 0 <= role <= 3 and 0 <= level <= 1
+    post: _
+    """
+    use, role, level = pick(use, 0, len(SCOPED_USES)), pick(role, 0, 4), pick(level, 0, 2)
+    with concrete():
+        written, want = SCOPED_USES[use]
+        head = "template<T = {ns::Traits}> "
+        sig = "%s opts, int z" % written
+        if role == 3:
+            text = PRELUDE + "namespace top { %sdouble doIt(%s); }" % (head, sig)
+        else:
+            member = ["Cls(%s);", "void doIt(%s) const;", "static void doIt(%s);"][role] % sig
+            if level == 0:
+                text = PRELUDE + "namespace top { %sclass Cls { %s }; }" % (head, member)
+            else:
+                text = PRELUDE + "namespace top { class Cls { %s%s }; }" % (head, member)
+        try:
+            body = pipe.pybind_body(text)
+        except Exception as ex:
+            body = "raised %r" % ex
+        ok = (want + " opts") in body or (role == 0 and ("py::init<%s, int>" % want) in body) or _fail(text=text, declared=want, body=body[-400:])
+    reached({"use": SCOPED_USES[use][0], "role": role, "level": level})
+    return ok
+
+
 def c04_argname(name: str) -> bool:
     """
     Argument names are copied verbatim into the lambda parameter, the call and py::arg (one symbolic spelling).
@@ -524,6 +559,8 @@ def conds(tier):
                 bounds="typedef'd instantiation in the template's namespace / in a nested namespace x 4 base forms x 0-2 class enums x 3 operator sets x namespace depth 0-2%s" % (" x 0-3 properties" if not q else "; properties derived")),
         xh.Cond(M, "c04_all_type_spellings", t(420, 2400), path_timeout=60, kind=sb, examples=["kind=0, r=0, a=43, role=0", "kind=1, r=11, a=27, role=1", "kind=1, r=47, a=127, role=2", "kind=0, r=0, a=90, role=2"],
                 bounds="every leaf of the C01 type algebra (128) and %s templated roots over it as first parameter of a method / static / function (%s)" % ("every fourth (root, leaf) pair of the 48 x 128" if not q else "every sixteenth (root, leaf) pair of the 48 x 128", "3 roles" if not q else "role derived")),
+        xh.Cond(M, "c04_scoped_parameter_types", t(200, 600), kind=sb, examples=["use=1, role=1, level=0", "use=2, role=0, level=1", "use=3, role=3, level=0", "use=5, role=2, level=1"],
+                bounds="%d parameter-scoped types (1-3 levels, bare and nested) x 4 roles x class-level | member-level parameter" % len(SCOPED_USES)),
         xh.Cond(M, "c04_default_verbatim", t(200, 600), kind=sb, examples=["d=0, flavour=0, role=1", "d=1, flavour=1, role=0", "d=2, flavour=2, role=3", "d=9, flavour=2, role=2"],
                 bounds="%d default texts mentioning T / U / This x {plain, class template, member or function template, two parameters in scope} x 4 roles" % len(VERBATIM_DEFAULTS)),
         xh.Cond(M, "c04_kf_parent_qualifiers", 60, path_timeout=60, kind=sb, bounds="witness of a listed known finding", needs_confirm=False),
